@@ -11,6 +11,9 @@ Arguments N.ltb : simpl never.
 Arguments N.leb : simpl never.
 Arguments N.max : simpl never.
 
+(* lia with every quotient in the goal treated as an unknown natural number *)
+Ltac dlia := repeat match goal with |- context [N.div ?a ?b] => generalize (N.div a b); intros ? end; lia.
+
 Definition res_opt {A} (r : res A) : option A := match r with Ok a => Some a | Err _ => None end.
 
 Definition is_overflow {A} (r : res A) : Prop := exists s, r = Err (Overflow s).
@@ -48,6 +51,9 @@ Proof. unfold checked_mul. destruct (a * b <? two64) eqn:E; [left|right]; split;
 Lemma check_cost_cases c m :
   (check_cost c m = Ok tt /\ c <= m) \/ (check_cost c m = Err CostExceeded /\ m < c).
 Proof. unfold check_cost. destruct (m <? c) eqn:E; [right|left]; split; auto; lia. Qed.
+
+Lemma check_cost_err c m e : check_cost c m = Err e -> e = CostExceeded.
+Proof. unfold check_cost. destruct (m <? c); intros H; inversion H; reflexivity. Qed.
 
 (* sums of the rule over atom-only length lists *)
 Definition opt_add (c : N) (o : option N) : option N := option_map (fun s => c + s) o.
@@ -207,23 +213,23 @@ Proof.
     { intros t Ht. destruct (all_atoms r); cbn; auto. intros. rewrite U32_MAX_val, two64_val in *. lia. }
     t_checked_add cost MUL_COST_PER_OP.
     2:{ cbn [loop_rel]. specialize (Hfail _ (or_introl L)). destruct (all_atoms r); cbn [option_map spec_mul_steps] in *; auto.
-        apply Hfail. lia. }
+        apply Hfail. dlia. }
     t_checked_add l0 len.
     2:{ cbn [loop_rel]. specialize (Hfail _ (or_introl L0)). destruct (all_atoms r); cbn [option_map spec_mul_steps] in *; auto.
-        apply Hfail. unfold MUL_LINEAR_COST_PER_BYTE. lia. }
+        apply Hfail. unfold MUL_LINEAR_COST_PER_BYTE. dlia. }
     t_checked_mul (l0 + len) MUL_LINEAR_COST_PER_BYTE.
     2:{ cbn [loop_rel]. specialize (Hfail _ (or_introl L1)). destruct (all_atoms r); cbn [option_map spec_mul_steps] in *; auto.
-        apply Hfail. lia. }
+        apply Hfail. dlia. }
     t_checked_add (cost + MUL_COST_PER_OP) ((l0 + len) * MUL_LINEAR_COST_PER_BYTE).
     2:{ cbn [loop_rel]. specialize (Hfail _ (or_introl L2)). destruct (all_atoms r); cbn [option_map spec_mul_steps] in *; auto.
-        apply Hfail. lia. }
+        apply Hfail. dlia. }
     t_checked_mul l0 len.
     2:{ cbn [loop_rel]. pose proof (div16_big _ L3) as Hb.
         specialize (Hfail _ (or_intror Hb)). destruct (all_atoms r); cbn [option_map spec_mul_steps] in *; auto.
-        apply Hfail. lia. }
+        apply Hfail. dlia. }
     t_checked_add (cost + MUL_COST_PER_OP + (l0 + len) * MUL_LINEAR_COST_PER_BYTE) (l0 * len / NEW_MUL_SQUARE_COST_PER_BYTE_DIVIDER).
     2:{ cbn [loop_rel]. specialize (Hfail _ (or_introl L4)). destruct (all_atoms r); cbn [option_map spec_mul_steps] in *; auto.
-        apply Hfail. lia. }
+        apply Hfail. dlia. }
     match goal with |- context [check_cost ?c m] =>
       destruct (check_cost_cases c m) as [[E Hle]|[E Hlt]]; rewrite E; cbn [bind] end.
     + specialize (IH _ (l0 + len) L4).
@@ -308,17 +314,29 @@ Theorem unknown_cost_rule op lens ncm m :
   res_opt (unknown_cost op lens ncm m) = unknown_spec op lens ncm m.
 Proof.
   intros Hm Hw. unfold wraps64 in Hw.
-  unfold unknown_cost, unknown_spec in *.
   destruct op as [|x op']; [reflexivity|]. set (op := x :: op') in *.
-  destruct (starts_ffff op); [reflexivity|].
-  unfold u32_from_u8.
   assert (Hlen : length (removelast op) = pred (length op)) by (apply length_removelast; discriminate).
-  destruct (5 <? length op)%nat eqn:E5.
-  { assert (4 <? length (removelast op) = true)%nat as -> by (rewrite Hlen; apply Nat.ltb_lt; apply Nat.ltb_lt in E5; lia).
-    reflexivity. }
-  assert (4 <? length (removelast op) = false)%nat as -> by (rewrite Hlen; apply Nat.ltb_ge; apply Nat.ltb_ge in E5; lia).
-  pose proof (unknown_base_rel (cost_function_of op) lens ncm m Hm) as R.
   set (mult := be_value (removelast op)) in *.
+  destruct (starts_ffff op) eqn:Eff.
+  { unfold unknown_cost, unknown_spec. fold op. rewrite Eff. reflexivity. }
+  destruct (5 <? length op)%nat eqn:E5.
+  { unfold unknown_cost, unknown_spec, u32_from_u8. fold op. rewrite Eff, E5.
+    assert (4 <? length (removelast op) = true)%nat as -> by (rewrite Hlen; apply Nat.ltb_lt; apply Nat.ltb_lt in E5; lia).
+    reflexivity. }
+  assert (Hu : u32_from_u8 (removelast op) = Some mult).
+  { unfold u32_from_u8.
+    assert (4 <? length (removelast op) = false)%nat as -> by (rewrite Hlen; apply Nat.ltb_ge; apply Nat.ltb_ge in E5; lia).
+    reflexivity. }
+  assert (Hcost : unknown_cost op lens ncm m =
+            (do cost <- unknown_base (cost_function_of op) lens ncm m;
+             do _ <- check_cost cost m;
+             do cost <- (if ncm then ok_or_cost (checked_mul cost (mult + 1))
+                         else Ok (wrapping_mul cost (mult + 1)));
+             if U32_MAX <? cost then Err Invalid else Ok cost)).
+  { unfold unknown_cost. fold op. rewrite Eff, Hu. reflexivity. }
+  rewrite Hcost in *.
+  unfold unknown_spec. fold op. rewrite Eff, E5. fold mult.
+  pose proof (unknown_base_rel (cost_function_of op) lens ncm m Hm) as R.
   destruct (unknown_base (cost_function_of op) lens ncm m) as [base|e] eqn:EB; cbn [bind loop_rel] in *.
   - destruct R as [R Hb]. rewrite R.
     destruct (check_cost_cases base m) as [[E Hle]|[E Hlt]]; rewrite E; cbn [bind].
@@ -357,12 +375,12 @@ Proof.
   destruct (starts_ffff op); [discriminate|].
   destruct (u32_from_u8 (removelast op)); [|discriminate].
   assert (NoOv : forall r : res N, (forall s', r <> Err (Overflow s')) ->
-            forall k, (forall c s', k c <> Err (Overflow s')) -> forall s', bind r k <> Err (Overflow s')).
+            forall k : N -> res N, (forall c s', k c <> Err (Overflow s')) -> forall s', bind r k <> Err (Overflow s')).
   { intros r Hr k Hk s'. destruct r; cbn; auto. }
   revert Hs. apply NoOv.
   2:{ intros c s'. destruct (check_cost c m) eqn:E; cbn.
       - destruct (checked_mul c (n + 1)); cbn; [destruct (U32_MAX <? n0)|]; discriminate.
-      - unfold check_cost in E. destruct (m <? c); inversion E. discriminate. }
+      - apply check_cost_err in E. subst. discriminate. }
   assert (Hck : forall c s', check_cost c m <> Err (Overflow s')).
   { intros c s'. unfold check_cost. destruct (m <? c); discriminate. }
   assert (Hadd : forall lens cost acc s', unk_add_new lens cost acc m <> Err (Overflow s')).
@@ -370,7 +388,7 @@ Proof.
     destruct (checked_add cost NEW_ARITH_COST_PER_ARG); cbn; [|discriminate].
     destruct (checked_mul (N.max acc len) NEW_ARITH_COST_PER_BYTE); cbn; [|discriminate].
     destruct (checked_add n0 n1); cbn; [|discriminate].
-    destruct (check_cost n2 m) eqn:E; cbn; [apply IH|]. rewrite <- E. apply Hck. }
+    destruct (check_cost n2 m) eqn:E; cbn; [apply IH|]. apply check_cost_err in E. subst. discriminate. }
   assert (Hmul : forall lens cost l0 s', unk_mul_new lens cost l0 m <> Err (Overflow s')).
   { induction lens0 as [|[len|] r IH]; intros cost l0 s'; cbn [unk_mul_new]; try discriminate.
     destruct (checked_add cost MUL_COST_PER_OP); cbn; [|discriminate].
@@ -379,7 +397,7 @@ Proof.
     destruct (checked_add n0 n2); cbn; [|discriminate].
     destruct (checked_mul l0 len); cbn; [|discriminate].
     destruct (checked_add n3 _); cbn; [|discriminate].
-    destruct (check_cost n5 m) eqn:E; cbn; [apply IH|]. rewrite <- E. apply Hck. }
+    destruct (check_cost n5 m) eqn:E; cbn; [apply IH|]. apply check_cost_err in E. subst. discriminate. }
   intros s'. unfold unknown_base.
   destruct (cost_function_of op =? 0); [discriminate|].
   destruct (cost_function_of op =? 1); [apply Hadd|].
@@ -387,7 +405,7 @@ Proof.
   { destruct lens as [|[l0|] r]; try discriminate.
     destruct (checked_mul l0 MUL_LINEAR_COST_PER_BYTE); cbn; [|discriminate].
     destruct (checked_add NEW_MUL_BASE_COST n0); cbn; [|discriminate].
-    destruct (check_cost n1 m) eqn:E; cbn; [apply Hmul|]. rewrite <- E. apply Hck. }
+    destruct (check_cost n1 m) eqn:E; cbn; [apply Hmul|]. apply check_cost_err in E. subst. discriminate. }
   destruct (cost_function_of op =? 3) eqn:E3; [|discriminate].
   exfalso. apply H3. lia.
 Qed.
@@ -422,3 +440,36 @@ Proof. intros H. unfold unknown_operator. rewrite H. reflexivity. Qed.
 Lemma unknown_operator_lenient o f args m :
   f_no_unknown_ops f = false -> unknown_operator o f args m = op_unknown o f args m.
 Proof. intros H. unfold unknown_operator. rewrite H. reflexivity. Qed.
+
+Lemma op_unknown_rule o f args m :
+  m < two64 -> ~ wraps64 o (arg_lens args) (f_new_cost_model f) m ->
+  res_opt (op_unknown o f args m) =
+  option_map (fun c => (c, nil_s)) (unknown_spec o (arg_lens args) (f_new_cost_model f) m).
+Proof. intros Hm Hw. rewrite op_unknown_lens. f_equal. exact (unknown_cost_rule _ _ _ _ Hm Hw). Qed.
+
+Lemma f6_refutes : exists op lens m,
+  m < two64 /\ wraps64 op lens false m /\
+  unknown_spec op lens false m = None /\ unknown_cost op lens false m = Ok 2375088102 /\
+  unknown_cost op lens true m = Err CostExceeded.
+Proof.
+  exists f6_op, f6_lens, U64_MAX.
+  exact (conj (eq_refl : (U64_MAX ?= two64) = Lt) (conj f6_wraps (conj f6_spec (conj f6_model f6_new)))).
+Qed.
+
+Lemma unknown_operator_modes o f args m :
+  (f_no_unknown_ops f = true -> unknown_operator o f args m = Err Unimplemented) /\
+  (f_no_unknown_ops f = false -> unknown_operator o f args m = op_unknown o f args m).
+Proof. split; [apply unknown_operator_strict | apply unknown_operator_lenient]. Qed.
+
+Lemma unknown_witness :
+  let op := [60; 128] in let lens := [Some 1000; Some 70000] in
+  ~ wraps64 op lens false 11000000000 /\
+  unknown_spec op lens false 11000000000 = Some 59404972 /\
+  unknown_cost op lens false 11000000000 = Ok 59404972 /\
+  unknown_spec op [Some 1000; None] false 11000000000 = None /\
+  unknown_cost op [Some 1000; None] false 11000000000 = Err (InvalidOpArg 0).
+Proof.
+  cbv zeta. split; [|vm_compute; repeat split].
+  intros [[s H]|[_ [b [Hb Hw]]]]; [vm_compute in H; discriminate|].
+  vm_compute in Hb. apply Some_inj in Hb. subst b. vm_compute in Hw. apply Hw. reflexivity.
+Qed.
